@@ -43,6 +43,7 @@ def renderReq (cmds : List Bytes) : Bytes :=
 inductive PAct where
   | act (a : Action)
   | change (name : Bytes)
+  | wblock               -- `B<k>` / `U`: write back-pressure of the transport (oracle-only ops `loopx`)
   | bad
 
 def parseAction (s : String) : PAct :=
@@ -88,6 +89,8 @@ def parseAction (s : String) : PAct :=
       | _ => .bad
     | 't' => match rest.toNat? with | some n => .act (.advance n) | none => .bad
     | 'c' => match rest.toNat? with | some n => .act (.cancel n) | none => .bad
+    | 'B' => match rest.toNat? with | some _ => .wblock | none => .bad
+    | 'U' => .wblock
     | 'x' => .act .dropMain
     | 'e' => .act .eof
     | 'r' => match rest.toNat? with | some n => .act (.readFault n) | none => .bad
@@ -163,6 +166,7 @@ structure Facts where
   greetClean : Bool := true      -- the delivery that completed the greeting line ended with it
   verdictBad : Bool := false     -- connect's outcome is not what the delivered password verdict says
   evLowerBad : Bool := false     -- an idle reply the client must have consumed produced no events (see C04 clause)
+  wblockSeen : Bool := false     -- write back-pressure occurred: "quiescent client has consumed everything" no longer holds
   pwReplyEnd : Option Nat := none
   writes : Bytes := []
 deriving Inhabited
@@ -214,6 +218,10 @@ def handle (toks : List String) (impl : String) : Verdict :=
     -- `loop.<Cxx>`: only the clauses of that property are judged (plus PANIC)
     let prop := (opName.splitOn ".").getD 1 "run"
     let on (p : String) : Bool := prop == "run" || prop == p
+    -- `loopx.…`: schedules with write back-pressure. The task model has atomic writes, so for these
+    -- the model is not compared (the model column repeats the implementation); the oracle clauses,
+    -- computed from the specification server fed with the implementation's own writes, are judged
+    let oracleOnly := opName.startsWith "loopx."
     let locked := pwS.startsWith "L"
     let pwHex := if locked then (pwS.drop 1).toString else pwS
     let pw : Option Bytes := if pwHex == "~" then none else unhex pwHex
@@ -299,6 +307,7 @@ def handle (toks : List String) (impl : String) : Verdict :=
           { f with faulted := true, readFault := some k, readEnds := true,
                    liveReadFault := if f.droppedSeen || f.faulted then f.liveReadFault else some k }
         | .act (.writeFault _) => { f with faulted := true }
+        | .wblock => { f with wblockSeen := true }
         | .act .dropMain => { f with dropMain := true }
         | .act (.cancel r) => { f with cancelled := f.cancelled ++ [r] }
         | _ => f
@@ -345,7 +354,7 @@ def handle (toks : List String) (impl : String) : Verdict :=
       -- it). Their `changed` names must be a prefix of the events delivered so far.
       let bodyNow : Bytes := match Spec.firstLine f.delivered with | some (_, rest) => rest | none => []
       let lowerOk :=
-        if droppedBefore || f.readEnds || f.dropMain || password.isSome || !(startsWith f.sv.out bodyNow) then true else
+        if droppedBefore || f.readEnds || f.dropMain || f.wblockSeen || password.isSome || !(startsWith f.sv.out bodyNow) then true else
         let before := (f.sv.idleReplies.filter fun r => r.1 ≤ prevBodyLen).flatMap fun r => r.2.map hex
         let firstMark := (f.sv.marks.filter fun m => m > prevBodyLen && m ≤ bodyNow.length).head?
         let extra : List String :=
@@ -477,7 +486,8 @@ def handle (toks : List String) (impl : String) : Verdict :=
       (if f.dropMain then "-drop" else "") ++ (if !f.cancelled.isEmpty then "-cancel" else "") ++
       (if !artReqs.isEmpty then "-art" else "") ++ (if !typedReqs.isEmpty then "-typed" else "") ++
       s!"-r{min f.results.length 3}-e{min f.events.length 3}"
-    { model := model, oracle := oracle, cls := cls, branch := branch }
+    { model := if oracleOnly then impl else model, oracle := oracle, cls := cls,
+      branch := if oracleOnly then "x-" ++ branch else branch }
   | _ => bad "loop"
 
 end Driver.Loop
